@@ -22,3 +22,14 @@ Fixpoint last_opt {A} (l : list A) : option A :=
   end.
 
 Definition is_shell_assign (l : sline) : bool := is_varassign l && (sl_op l =? 1)%N.
+
+(* DefineAll(other) seen as a history of Define operations: per name of `other`, in sorted order,
+   its first and its last defining line *)
+Definition define_all_hist (other : sstate) : list sop :=
+  flat_map (fun k => match slookup other k with
+                     | Some x => match v_first x, v_last x with
+                                 | Some f, Some l => [ODefine k f; ODefine k l]
+                                 | _, _ => []
+                                 end
+                     | None => []
+                     end) (varnames other).
